@@ -455,9 +455,11 @@ def c08(ctx):
 def B(t):
     return list(t.encode("utf-8")) if isinstance(t, str) else list(t)
 
-POOL = [B("a@x.com"), B("a@xn--a.com"), B('"\x01"@x.org'), B("a@[1.2.3.4]"), B("a@example.org"), B("a@localhostx"),
+# the first five entries are the "small" pool of the history replays: generic TLD, a domain the converter refuses (accepted in the
+# ASCII modes), generic-restricted TLD, a literal, the infrastructure TLD - pairwise different outcomes and policy arms
+POOL = [B("a@x.com"), B("a@xn--a.com"), B("a@x.biz"), B("a@[1.2.3.4]"), B("a@x.arpa"), B('"\x01"@x.org'), B("a@example.org"), B("a@localhostx"),
         B("a@x.zzzq"), B("a@x.abarth"), B("\u00e9@x.com"), B("a@\u043f\u043e\u0447\u0442\u0430.\u0440\u0444"), B("a@x.ru"),
-        B("a..b@x.com"), B("a@[IPv6:::1]"), B("a@a-.com"), B("a@x.arpa"), B("a@")]
+        B("a..b@x.com"), B("a@[IPv6:::1]"), B("a@a-.com"), B("a@x.aero"), B("a@")]
 
 
 def tla_seq(b):
@@ -538,6 +540,9 @@ def classify_history(ctx, v, backend="idn2"):
         add_violation(ctx, "C13", w, case)
         if earlier_fault:
             add_violation(ctx, "C19", "after a converter failure: " + w, case)
+    elif w.startswith("a call changed the caller"):
+        add_violation(ctx, "C13", w, case)
+        add_violation(ctx, "C08", w, case)
     elif w in ("setup return", "errstr after refused setup", "diagnostics inconsistent", "errstr NULL"):
         add_violation(ctx, "C15", w, case)
         if w == "diagnostics inconsistent":
@@ -650,6 +655,8 @@ BIGPOOL = [B(x) for x in (
     "xxxxxxxxxxxxxxxxxxxxxxxxxxxxxxxxxxxxxxxxxxxxxxxxxxxxxxxxxxxxxxxx@y.com", "\u0438\u0432\u0430\u043d@\u043f\u043e\u0447\u0442\u0430.\u0440\u0444",
     "x@\u4f8b\u3048.\u30c6\u30b9\u30c8", "x@xn--p1ai", "x@y.xn--p1ai", "x@xn--a.com", "x@\u2615.de", "\u00e9.\u00e9@y.com", "x#y@y.com", "x{y}@y.com",
     "x@y.COM", "x@Example.Com", "x@a.b.c.d.e.f.g.h.ru", "x@1.2.3.ru", "\"\\\u00e9\"@y.com", "x@y.c", "\"\r\n x\"@y.com", "\"x\ty\"@y.com")]
+BIGPOOL += [list(b"a" * 60 + b"@" + b".".join([b"b" * 60] * 4) + b".com"), list(b"a" * 64 + b"@" + b".".join([b"c" * 63] * 4) + b".org"),
+            list(b"a" * 30 + b"@" + b".".join([b"d" * 50] * 7)), list(b"x" * 400 + b"@y.com"), list(b"x@" + b"y" * 400)]
 BIGPOOL += [list(b"x\xff@y.com"), list(b"x@y\xff.com"), list(b"\xc3@y.com"), list(b"x\x01y@y.com"), list(b"\"x\x01y\"@y.com"), list(b"\"x\x7f\"@y.org")]
 
 
@@ -745,6 +752,9 @@ def c06(ctx):
             for v in res["viol"]:
                 if v["what"].startswith("placement"):
                     add_violation(ctx, "C06", "result depends on bytes outside the string", v)
+                elif v["kind"] == "robust":
+                    for p_ in ("C06", "C13", "C16"):
+                        add_violation(ctx, p_, v["what"], {"mode": v["mode"], "len": len(v["in"]), "in_prefix": v["in"][:80], "rc": v["exp"], "result_rc": v["got"]})
     # (2) lifecycle: object model (defined fields, heap balance) + histories under --wrap accounting and valgrind
     suite_object(ctx, 5 if q else 6, faults=True, small=True, valgrind_n=300 if q else 3000)
     # the EAV_EXTRA build allocates two more strings per accepted address: same histories, same accounting
